@@ -380,4 +380,95 @@ theorem cancelAll_once (c : L2) (h : TOK c.streams) (err : Err) (i : Nat) :
     | false =>
       simp only [Bool.false_eq_true, if_false, cancelClient_count, bne_iff_ne]
 
+/-! ### attribution: a completed trace carries the test name of the stream it comes from -/
+
+theorem closeLocal_names (st : Stream) (isReq : Bool) (err : Err) (t : Trace)
+    (h : COp.complete t ∈ (closeLocal st isReq err).2) : t.name = st.name := by
+  simp only [closeLocal, completes, List.mem_map] at h
+  obtain ⟨t', ht', he⟩ := h
+  injection he with he
+  subst he
+  exact (close_count st isReq err).2.2 t' ht'
+
+theorem finishStep_names (name : String) (r0 : Stream × List Trace) (h0 : r0.2 = []) (hn0 : r0.1.name = name)
+    (es isReq : Bool) (t : Trace) (h : COp.complete t ∈ (finishStep r0 es isReq).2) : t.name = name := by
+  cases es with
+  | true =>
+    simp only [finishStep, if_true, h0, completes, List.map_nil, List.nil_append] at h
+    rw [← hn0]; exact closeLocal_names _ _ _ _ h
+  | false => simp [finishStep, h0, completes] at h
+
+theorem streamStep_names (maxId : Nat) (isReq : Bool) (id : Nat) (cur : Option Stream) (f : Frame) (t : Trace)
+    (h : COp.complete t ∈ (streamStep maxId isReq id cur f).2) : ∃ st, cur = some st ∧ t.name = st.name := by
+  cases f with
+  | headers fid fields es =>
+    cases cur with
+    | some st =>
+      have hq := headersUpdate_quiet st isReq fields
+      exact ⟨st, rfl, finishStep_names st.name _ hq.1 hq.2 es isReq t h⟩
+    | none =>
+      exfalso
+      have hc := (streamStep_once maxId isReq id none (.headers fid fields es)).1
+      simp only [curLive, Bool.false_eq_true, false_and, if_false] at hc
+      have : 0 < completesIn (streamStep maxId isReq id none (.headers fid fields es)).2 := by
+        simp only [completesIn, List.countP_pos_iff]
+        exact ⟨_, h, rfl⟩
+      omega
+  | data fid payload es =>
+    cases cur with
+    | none => simp [streamStep] at h
+    | some st =>
+      have hq := dataUpdate_quiet st isReq payload
+      exact ⟨st, rfl, finishStep_names st.name _ hq.1 hq.2 es isReq t h⟩
+  | rst fid code =>
+    cases cur with
+    | none => simp [streamStep] at h
+    | some st => exact ⟨st, rfl, closeLocal_names st isReq _ t h⟩
+  | goaway last code => simp [streamStep] at h
+  | other => simp [streamStep] at h
+
+theorem viewStep_names (i : Nat) (v : View) (isReq : Bool) (f : Frame) (t : Trace)
+    (h : COp.complete t ∈ (viewStep i v isReq f).2) : ∃ st, v.cur = some st ∧ t.name = st.name := by
+  cases f with
+  | goaway last code =>
+    obtain ⟨cur, vmax⟩ := v
+    cases cur with
+    | none => simp [viewStep] at h
+    | some st =>
+      simp only [viewStep] at h
+      split at h
+      · simp only [completes, List.mem_map] at h
+        obtain ⟨t', ht', he⟩ := h
+        injection he with he
+        subst he
+        exact ⟨st, rfl, (close_count st false (.conn code)).2.2 t' ht'⟩
+      · simp at h
+  | headers fid fields es =>
+    simp only [viewStep] at h
+    split at h
+    · exact streamStep_names _ _ _ _ _ t h
+    · simp at h
+  | data fid payload es =>
+    simp only [viewStep] at h
+    split at h
+    · exact streamStep_names _ _ _ _ _ t h
+    · simp at h
+  | rst fid code =>
+    simp only [viewStep] at h
+    split at h
+    · exact streamStep_names _ _ _ _ _ t h
+    · simp at h
+  | other => simp [viewStep, frameSid] at h
+
+theorem mem_opsFor (i : Nat) (ops : Ops) (o : COp) : o ∈ opsFor i ops ↔ (i, o) ∈ ops := by
+  simp only [opsFor, List.mem_map, List.mem_filter]
+  constructor
+  · rintro ⟨p, ⟨hp, hi⟩, rfl⟩
+    have : p.1 = i := by simpa using hi
+    rw [← this]; exact hp
+  · intro h; exact ⟨(i, o), ⟨h, by simp⟩, rfl⟩
+
+/-- a newly opened stream carries the test name of its request HEADERS -/
+theorem newStream_name (fields : Fields) : (newStream fields).name = getHeader fields testNameHeader := rfl
+
 end ConfModel.H2
